@@ -54,14 +54,15 @@ package gorm
 //@   ensures connpool: result.ConnPool == stmt.ConnPool [C05,C04]
 //@   ensures attrs: result.attrs == stmt.attrs [C16]
 //@   ensures assigns: result.assigns == stmt.assigns [C16]
-//@   ensures joins: len(result.Joins) == len(stmt.Joins) && (len(stmt.Joins) > 0 ==> fresh(result.Joins))
-//@   ensures scopes: len(result.scopes) == len(stmt.scopes) && (len(stmt.scopes) > 0 ==> fresh(result.scopes))
+//@   ensures joins: len(result.Joins) == len(stmt.Joins) && (result.Joins == nil || fresh(result.Joins))
+//@   ensures scopes: len(result.scopes) == len(stmt.scopes) && (result.scopes == nil || fresh(result.scopes))
 
 //@ func (*DB).getInstance
 //@   tags C06
 //@   modifies nothing
 //@   ensures reuse: db.clone <= 0 ==> result == db
 //@   ensures fresh-handle: db.clone > 0 ==> fresh(result) && fresh(result.Statement) && fresh(result.Statement.Clauses) && result.Statement.DB == result && result.clone == 0
+//@   ensures fresh-slices: db.clone > 0 ==> (result.Statement.Joins == nil || fresh(result.Statement.Joins)) && (result.Statement.scopes == nil || fresh(result.Statement.scopes)) && (result.Statement.Preloads == nil || fresh(result.Statement.Preloads))
 //@   ensures connpool: result.Statement.ConnPool == db.Statement.ConnPool [C05,C04]
 //@   ensures context: result.Statement.Context == db.Statement.Context [C18]
 //@   ensures config: result.Config == db.Config && result.Error == db.Error [C19,C05]
@@ -84,3 +85,62 @@ package gorm
 //@   ensures tx-stays-tx: config.PrepareStmt && is(db.Statement.ConnPool, Tx) ==> is(result.Statement.ConnPool, *PreparedStmtTX) && result.Statement.ConnPool.(*PreparedStmtTX).Tx == db.Statement.ConnPool [C04,C05]
 //@   ensures error-kept: result.Error == db.Error [C05]
 //@   ensures skiphooks: result.Statement.SkipHooks == (db.Statement.SkipHooks || config.SkipHooks) [C13]
+
+//@ # ---------- chain methods write only memory allocated by the call (C06) ----------
+//@ iface ErrorTranslator.Translate(recv, err)
+//@   abstract dialect plug-in; assumed to return an error for an error
+//@   pure
+//@   ensures err != nil ==> result != nil
+
+//@ func (*DB).AddError
+//@   tags C05
+//@   modifies db.Error
+//@   ensures keeps-error: old(db.Error) != nil ==> db.Error != nil
+//@   ensures records-error: err != nil ==> db.Error != nil
+//@   ensures nil-is-noop: err == nil ==> db.Error == old(db.Error)
+//@   ensures returns-current: result == db.Error
+
+//@ iface StatementModifier.ModifyStatement(recv, stmt)
+//@   abstract statement modifiers (soft delete clauses, plug-ins) are assumed to write only the statement they are given
+//@   modifies stmt.Clauses[*], stmt.SQL, stmt.Vars, stmt.Dest, stmt.DB.Error
+
+//@ func (*Statement).AddClause
+//@   tags C06
+//@   modifies stmt.Clauses[*], stmt.SQL, stmt.Vars, stmt.Dest, stmt.DB.Error
+
+//@ func (*Statement).BuildCondition
+//@   trusted reflection-driven conversion of condition forms; frame assumed (see finding F7 for the *DB argument case)
+//@   modifies stmt.DB.Error
+//@   ensures len(result) == 0 || fresh(result)
+
+//@ func (*Statement).Quote
+//@   trusted quotes through the dialect into a local strings.Builder
+//@   pure
+
+//@ func (*DB).Clauses
+//@   tags C06
+//@   requires db.clone > 0
+//@   modifies nothing
+//@   loop 1 invariant whereConds == nil || fresh(whereConds)
+//@   ensures fresh-result: fresh(result)
+
+//@ func (*DB).Select
+//@   tags C06
+//@   inline
+//@   requires db.clone > 0
+//@   modifies nothing
+//@   loop 1 invariant selects-own-1: tx.Statement.Selects == nil || fresh(tx.Statement.Selects)
+//@   loop 2 invariant selects-own-2: tx.Statement.Selects == nil || fresh(tx.Statement.Selects)
+//@   ensures fresh-result: fresh(result)
+
+//@ func (*DB).Model (*DB).Table (*DB).Distinct (*DB).Omit (*DB).MapColumns (*DB).Where (*DB).Not (*DB).Or (*DB).Joins (*DB).InnerJoins (*DB).Group (*DB).Having (*DB).Order (*DB).Limit (*DB).Offset (*DB).Scopes (*DB).Preload (*DB).Attrs (*DB).Assign (*DB).Unscoped
+//@   tags C06
+//@   requires db.clone > 0
+//@   modifies nothing
+//@   ensures fresh-result: fresh(result)
+
+//@ func joins
+//@   tags C06
+//@   requires db.clone > 0
+//@   modifies nothing
+//@   ensures fresh-result: fresh(result)
